@@ -262,6 +262,62 @@ inline bool cmp_lanes(VpOutcome* o, unsigned width, const uint64_t* expect, cons
     return ok;
 }
 
+// ---- masks through their producers and consumers ----
+// A mask is only as good as what its consumers make of it: a lane mask whose lane is neither all-ones nor zero reads correctly through
+// extract/count/any (they look at one bit) and still corrupts keep/clear/blend. mask_consumers_ok() feeds a produced mask to keep, clear
+// and blend with an all-ones and a patterned vector and requires whole lanes to move.
+template<class V> inline bool mask_consumers_ok(const typename V::mask& m, const uint64_t* truth, VpOutcome* o, const char* producer) {
+    typedef typename V::scalar T;
+    const unsigned W = V::width; const uint64_t em = elem<T>::mask();
+    uint64_t ones[VP_MAXL], pat[VP_MAXL], zero[VP_MAXL], e[VP_MAXL], g[VP_MAXL];
+    for (unsigned i = 0; i < W; ++i) { ones[i] = em; pat[i] = (0x0123456789ABCDEFull * (2 * i + 1) + 0x8000000080008081ull) & em; zero[i] = 0; }
+    const V vo = mk<V>(ones), vp_ = mk<V>(pat), vz = mk<V>(zero);
+    char tag[96];
+    for (unsigned i = 0; i < W; ++i) e[i] = truth[i] ? em : 0;
+    rd<V>(avel::keep(m, vo), g); std::snprintf(tag, sizeof tag, "mask_from_%s:keep", producer);
+    if (!cmp_lanes(o, W, e, g, nullptr, tag, "keep(m, all-ones) with a mask produced by the operation")) return false;
+    rd<V>(avel::blend(m, vo, vz), g); std::snprintf(tag, sizeof tag, "mask_from_%s:blend", producer);
+    if (!cmp_lanes(o, W, e, g, nullptr, tag, "blend(m, all-ones, 0) with a mask produced by the operation")) return false;
+    for (unsigned i = 0; i < W; ++i) e[i] = truth[i] ? 0 : pat[i];
+    rd<V>(avel::clear(m, vp_), g); std::snprintf(tag, sizeof tag, "mask_from_%s:clear", producer);
+    if (!cmp_lanes(o, W, e, g, nullptr, tag, "clear(m, pattern) with a mask produced by the operation")) return false;
+    return true;
+}
+// the same truth values turned into a mask by different producers (0 primitive, 1 comparison, 2 std::array<bool>, 3 insert<I> chain on
+// Mask(false), 4 insert<I>(.., false) chain on Mask(true), 5 Mask(vector) with only the top bit / only the lowest bit set in the true lanes)
+template<class M, unsigned I, unsigned N> struct insert_chain { static void go(M& m, const uint64_t* t, bool set) { if ((t[I] != 0) == set) m = avel::insert<I>(m, set); insert_chain<M, I + 1, N>::go(m, t, set); } };
+template<class M, unsigned N> struct insert_chain<M, N, N> { static void go(M&, const uint64_t*, bool) {} };
+enum { VP_MASK_PRODUCERS = 7 };
+// producer 6: the sign test of the type (signbit for floating point, v < 0 for signed integers, v > half for unsigned ones) on lanes whose lower half
+// carries bits that disagree with the sign
+template<class V, int K = std::is_floating_point<typename V::scalar>::value ? 2 : (std::is_signed<typename V::scalar>::value ? 1 : 0)> struct sign_producer;
+template<class V> struct sign_producer<V, 2> { static typename V::mask go(const V& v, const V&) { return avel::signbit(v); } };
+template<class V> struct sign_producer<V, 1> { static typename V::mask go(const V& v, const V& z) { return v < z; } };
+template<class V> struct sign_producer<V, 0> { static typename V::mask go(const V& v, const V& z) { return v > z; } };
+template<class V> inline typename V::mask mask_via(unsigned producer, const uint64_t* truth) {
+    typedef typename V::scalar T; typedef typename V::mask M;
+    const unsigned W = V::width;
+    switch (producer % VP_MASK_PRODUCERS) {
+    case 1: { uint64_t x[VP_MAXL], z[VP_MAXL]; for (unsigned i = 0; i < W; ++i) { x[i] = truth[i] ? elem<T>::to_bits(T(3)) : 0; z[i] = 0; } return mk<V>(x) != mk<V>(z); }
+    case 2: { std::array<bool, V::width> arr; for (unsigned i = 0; i < W; ++i) arr[i] = truth[i] != 0; return M(arr); }
+    case 3: { M m(false); insert_chain<M, 0, V::width>::go(m, truth, true); return m; }
+    case 4: { M m(true); insert_chain<M, 0, V::width>::go(m, truth, false); return m; }
+    case 5: { uint64_t x[VP_MAXL]; for (unsigned i = 0; i < W; ++i) x[i] = truth[i] ? (std::is_floating_point<T>::value ? elem<T>::to_bits(T(-2)) : ((i & 1) ? uint64_t(1) : (uint64_t(1) << (elem<T>::bits - 1)))) : 0; return M(mk<V>(x)); }
+    case 6: {
+        const unsigned B = elem<T>::bits; const uint64_t top = uint64_t(1) << (B - 1), halfbit = uint64_t(1) << (B / 2 - 1);
+        uint64_t x[VP_MAXL], z[VP_MAXL];
+        for (unsigned i = 0; i < W; ++i) {
+            // true lanes: top bit set, the top bit of the lower half clear; false lanes the other way round; a few more low bits set either way
+            const uint64_t body = std::is_floating_point<T>::value ? (elem<T>::to_bits(T(1)) | 1) : 1;
+            x[i] = truth[i] ? ((top | body) & ~halfbit) : ((body | halfbit) & ~top);
+            z[i] = std::is_floating_point<T>::value || std::is_signed<T>::value ? 0 : (top - 1);       // unsigned: v > 2^(B-1)-1
+        }
+        return sign_producer<V>::go(mk<V>(x), mk<V>(z));
+    }
+    default: return mkmask<M>(truth);
+    }
+}
+
 }  // namespace vp
 
 // ---- type lists (X-macros), conditional on what the configuration provides ----
